@@ -1,6 +1,6 @@
 (* C01 — incremental build equals clean build (statements only). *)
-From Coq Require Import List NArith Arith Bool.
-Require Import BobV.Builder.Model BobV.Builder.Proofs.
+From Coq Require Import List NArith Arith Bool Permutation.
+Require Import BobV.Builder.Model BobV.Builder.Proofs BobV.Builder.Sched.
 Import ListNotations.
 Open Scope N_scope.
 
@@ -62,6 +62,25 @@ Proof.
   - exact (proj1 (proj2 (proj2 (cook_package_ok hash c d ins s I)))).
 Qed.
 
+(* With -jN the steps of one build run in some other dependency-respecting
+   order (each step execution touches only its own workspace, so a parallel run
+   is an interleaving of whole step executions).  Whatever order each build of
+   the history used, and whatever order P' the last one uses, every workspace
+   ends with the content of the from-scratch build in the canonical order. *)
+Theorem any_schedule_equals_clean :
+  forall (hash : content -> Hsh) (is_src : N -> bool) (c : cfg) (Ps : list project) (P P' : project) (w : wstate),
+    AllInv hash is_src w -> Forall (wf is_src) Ps -> wf is_src P -> wf is_src P' -> Permutation P P' ->
+    let w' := build hash c P' (fold_left (fun st Q => build hash c Q st) Ps w) in
+    forall sd, In sd P -> cont (w' (sd_path sd)) = clean hash P (sd_path sd).
+Proof. exact any_schedule_equals_clean_proof. Qed.
+
+(* the from-scratch result itself is a function of the step set, not of the order *)
+Theorem clean_schedule_independent :
+  forall (hash : content -> Hsh) (is_src : N -> bool) (P P' : project),
+    wf is_src P -> wf is_src P' -> Permutation P P' ->
+    forall sd, In sd P -> clean hash P' (sd_path sd) = clean hash P (sd_path sd).
+Proof. exact clean_schedule_independent_proof. Qed.
+
 (* non-vacuity: a script edit, then a revert, on a 3-step project *)
 Definition h0 (c : content) : Hsh :=
   match c with Empty => 1 | Out d i => 10 + d + 7 * fold_right N.add 0 i | Partial d => 3 | Garbage => 5 end.
@@ -77,3 +96,23 @@ Example incremental_nonvacuous :
   /\ build_runs h0 cfg0 (proj_v 200) w = [(0, false); (1, false); (2, false)]
   /\ build_runs h0 cfg0 (proj_v 201) w = [(0, false); (1, true); (2, true)].
 Proof. vm_compute. auto. Qed.
+
+(* non-vacuity of the schedule theorems: a diamond built in its two orders *)
+Definition sdA := {| sd_path := 0; sd_kind := KCheckout true; sd_d := 100; sd_deps := [] |}.
+Definition sdB := {| sd_path := 1; sd_kind := KBuild; sd_d := 200; sd_deps := [0] |}.
+Definition sdC := {| sd_path := 2; sd_kind := KBuild; sd_d := 201; sd_deps := [0] |}.
+Definition sdD := {| sd_path := 3; sd_kind := KPackage; sd_d := 300; sd_deps := [1; 2] |}.
+Definition src0 (p : N) : bool := N.eqb p 0.
+
+Example schedule_nonvacuous :
+  wf src0 [sdA; sdB; sdC; sdD] /\ wf src0 [sdA; sdC; sdB; sdD] /\
+  Permutation [sdA; sdB; sdC; sdD] [sdA; sdC; sdB; sdD] /\
+  map (fun p => cont (build h0 cfg0 [sdA; sdC; sdB; sdD] (fun _ => empty_slot) p)) [0; 1; 2; 3]
+    = map (clean h0 [sdA; sdB; sdC; sdD]) [0; 1; 2; 3].
+Proof.
+  split; [|split; [|split]].
+  - cbn. repeat split; try (intros q Hq; cbn in Hq; tauto); intuition discriminate.
+  - cbn. repeat split; try (intros q Hq; cbn in Hq; tauto); intuition discriminate.
+  - apply perm_skip. apply perm_swap.
+  - vm_compute. reflexivity.
+Qed.
